@@ -8,6 +8,7 @@ import (
 	"errors"
 	"fmt"
 	"io"
+	"strings"
 	"sync"
 
 	"github.com/emersion/go-message/textproto"
@@ -40,7 +41,7 @@ const (
 type Point struct {
 	Target  string
 	MsgID   string
-	Attempt int // n-th Start of this MsgID on this target, 1-based
+	Attempt int // n-th Start of this message (AttemptKey(MsgID)) on this target, 1-based
 	Stage   string
 	Rcpt    string
 	RcptIdx int // index among AddRcpt calls of this delivery
@@ -154,10 +155,25 @@ func SnapMeta(m *module.MsgMetadata) *MetaSnap {
 	return s
 }
 
+// AttemptKey strips the "-<hex unix time>" suffix the queue appends to the
+// message id of every attempt, so that attempts of one message share a key.
+func AttemptKey(id string) string {
+	k := strings.LastIndexByte(id, '-')
+	if k <= 0 || k == len(id)-1 {
+		return id
+	}
+	for _, c := range id[k+1:] {
+		if !(c >= '0' && c <= '9' || c >= 'a' && c <= 'f') {
+			return id
+		}
+	}
+	return id[:k]
+}
+
 func (t *ScriptTarget) Start(ctx context.Context, msgMeta *module.MsgMetadata, mailFrom string) (module.Delivery, error) {
 	t.mu.Lock()
-	t.attempts[msgMeta.ID]++
-	att := t.attempts[msgMeta.ID]
+	t.attempts[AttemptKey(msgMeta.ID)]++
+	att := t.attempts[AttemptKey(msgMeta.ID)]
 	t.mu.Unlock()
 	id := t.Log.newDelivery()
 	p := Point{Target: t.InstName, MsgID: msgMeta.ID, Attempt: att, Stage: StStart}
